@@ -7,29 +7,56 @@ import vcoq
 import vparse
 
 
+def instance_spec(cfgd):
+    """a machine whose processors share one stack:<depth> or queue:<depth>; roles[k] in send/recv/both"""
+    kind = cfgd["so"]
+    wr, rd = ("r2t", "t2r") if kind == "stack" else ("r2q", "q2r")
+    sostr = "%s:%d" % (kind, cfgd["depth"])
+    procs = []
+    for role in cfgd["roles"]:
+        ops = {"j", "nop", "rset"} | ({wr} if role in ("send", "both") else set()) | ({rd} if role in ("recv", "both") else set())
+        procs.append({"arch": {"R": 1, "N": 0, "M": 0, "L": 0, "O": 3, "ops": sorted(ops), "mode": "ha", "rsize": cfgd["dsize"], "shared": sostr},
+                      "prog": ["rset r0 3", "j 0"]})
+    return {"rsize": cfgd["dsize"], "procs": procs, "inputs": 0, "outputs": 0, "bonds": [], "shared": [sostr],
+            "sharedlinks": [[k, 0] for k in range(len(procs))]}
+
+
 def emit_stack(cfgd):
-    """-> (coq module term, names record term, cfg term) for one configuration"""
-    st = {"ModuleName": "bmstk", "DataSize": cfgd["dsize"], "Depth": cfgd["depth"],
-          "Senders": ["s%d" % k for k in range(cfgd["snd"])], "Receivers": ["r%d" % k for k in range(cfgd["rcv"])],
-          "MemType": cfgd["mt"]}
-    r = C.jsonl(C.sh([C.BMH, "vlog"], input=json.dumps({"kind": "stack", "stack": st}) + "\n").stdout)[0]
-    if r.get("err"):
-        raise C.Broken("WriteHDL failed: " + r["err"])
-    text = r["files"]["bmstk.v"]
+    """-> (coq module term, names record term, cfg term) for one configuration: a module written by BmStack.WriteHDL, or
+    (cfgd['so'] set) the module the bondmachine generator writes for a stack/queue shared object of a machine"""
+    if cfgd.get("so"):
+        kind = cfgd["so"]
+        r = C.jsonl(C.sh([C.BMH, "vlog"], input=json.dumps({"kind": "bm", "bm": instance_spec(cfgd)}) + "\n").stdout)[0]
+        if r.get("err"):
+            raise C.Broken("Write_verilog failed: " + r["err"])
+        modname = "st0" if kind == "stack" else "q0"
+        if modname + ".v" not in r["files"]:
+            raise C.Broken("the machine's file set has no %s.v: %s" % (modname, sorted(r["files"])))
+        text = r["files"][modname + ".v"]
+        snd = ["p%d%s_send" % (k, kind) for k, role in enumerate(cfgd["roles"]) if role in ("send", "both")]
+        rcv = ["p%d%s_recv" % (k, kind) for k, role in enumerate(cfgd["roles"]) if role in ("recv", "both")]
+    else:
+        modname = "bmstk"
+        snd = ["s%d" % k for k in range(cfgd["snd"])]
+        rcv = ["r%d" % k for k in range(cfgd["rcv"])]
+        st = {"ModuleName": modname, "DataSize": cfgd["dsize"], "Depth": cfgd["depth"], "Senders": snd, "Receivers": rcv, "MemType": cfgd["mt"]}
+        r = C.jsonl(C.sh([C.BMH, "vlog"], input=json.dumps({"kind": "stack", "stack": st}) + "\n").stdout)[0]
+        if r.get("err"):
+            raise C.Broken("WriteHDL failed: " + r["err"])
+        text = r["files"]["bmstk.v"]
     mods = vparse.parse_file(text)
     em = vcoq.Emitter()
-    term = em.module(vcoq.flat_module(mods, "bmstk"))
+    term = em.module(vcoq.flat_module(mods, modname))
     P = em.P
 
-    def ids(fmt, n):
-        return "[" + "; ".join(P(fmt % k) for k in range(n)) + "]"
+    def ids(base, suffix):
+        return "[" + "; ".join(P(b + suffix) for b in base) + "]"
     dummy = P("__unused")
     names = "(mkNames %s %s %s %s %s %s %s %s %s %s %s %s %s)" % (
         P("reset"), P("memory"), P("sp"), P("readsp") if cfgd["mt"] == "FIFO" else dummy,
         P("writesp") if cfgd["mt"] == "FIFO" else dummy, P("sendSM"), P("recvSM"),
-        ids("s%dWrite", cfgd["snd"]), ids("s%dData", cfgd["snd"]), ids("s%dAck", cfgd["snd"]),
-        ids("r%dRead", cfgd["rcv"]), ids("r%dData", cfgd["rcv"]), ids("r%dAck", cfgd["rcv"]))
-    cfg = "(mkCfg %s %d %d %d %d)" % (cfgd["mt"], cfgd["depth"], cfgd["dsize"], cfgd["snd"], cfgd["rcv"])
+        ids(snd, "Write"), ids(snd, "Data"), ids(snd, "Ack"), ids(rcv, "Read"), ids(rcv, "Data"), ids(rcv, "Ack"))
+    cfg = "(mkCfg %s %d %d %d %d)" % (cfgd["mt"], cfgd["depth"], cfgd["dsize"], len(snd), len(rcv))
     return term, names, cfg, text
 
 
@@ -77,7 +104,10 @@ def lockstep_body(cfgd, seqs):
             "Definition runs : list (list inp) := %s.\n"
             "Definition M := Eval vm_compute in match elaborate m with\n"
             "  | Ok E => match init_state E with Ok h0 => map (fun ins => match lockstep E nm c 0 h0 (reset_state c) ins with Some k => [N.of_nat k] | None => [] end) runs\n"
-            "            | Err _ => [[999998]] end\n  | Err _ => [[999999]] end.\n" % (
+            "            | Err _ => [[999998]] end\n  | Err _ => [[999999]] end.\n"
+            "Definition D := Eval vm_compute in match elaborate m with\n"
+            "  | Ok E => match init_state E with Ok h0 => map (fun ins => match discipline E nm c 0 h0 [] ins with Some (k, e) => [N.of_nat k; e] | None => [] end) runs\n"
+            "            | Err _ => [[999998; 9]] end\n  | Err _ => [[999999; 9]] end.\n" % (
                 term, names, cfg, C.cq_list([C.cq_list([inp_term(i) for i in s]) for s in seqs])))
 
 
@@ -111,14 +141,33 @@ def run(res, a):
     for _ in range(10 if a.tier == "quick" else 80):
         big.append(dict(mt=rnd.choice(["LIFO", "FIFO"]), depth=rnd.randint(1, 5), dsize=rnd.randint(1, 4),
                         snd=rnd.randint(1, 3), rcv=rnd.randint(1, 3)))
+    # the modules the machine generator writes for stack:<d> and queue:<d> shared objects (discipline, depth, width and
+    # the sender/receiver lists are chosen there): stack must behave as the LIFO model, queue as the FIFO model
+    for _ in range(4 if a.tier == "quick" else 24):
+        so = rnd.choice(["stack", "queue"])
+        roles = [rnd.choice(["send", "recv", "both"]) for _ in range(rnd.randint(1, 3))]
+        if not any(r in ("send", "both") for r in roles):
+            roles[0] = "both"
+        if not any(r in ("recv", "both") for r in roles):
+            roles[-1] = "both"
+        big.append(dict(so=so, mt="LIFO" if so == "stack" else "FIFO", depth=rnd.randint(1, 5), dsize=rnd.choice([8, 16]), roles=roles,
+                        snd=sum(r in ("send", "both") for r in roles), rcv=sum(r in ("recv", "both") for r in roles)))
+    cov["shared_object_instances"] = sum(1 for c in big if c.get("so"))
     bodies, meta = [], []
     for c in big:
         seqs = [random_inputs(rnd, c, 60, abiding=(k % 2 == 0)) for k in range(6)]
         bodies.append(lockstep_body(c, seqs))
         meta.append((c, seqs))
-    for (c, seqs), o in zip(meta, C.eval_cases_parallel("C13", ["\n" + b for b in bodies], timeout=3000)):
-        for s, r in zip(seqs, o["M"]):
+    DISC = {2: "a read is acknowledged although nothing is stored", 3: "an acknowledged read returns another element than the discipline prescribes",
+            4: "a write is acknowledged although the module is full", 5: "sp differs from the number of stored elements", 9: "the circuit cannot be executed"}
+    concrete = []
+    for (c, seqs), o in zip(meta, C.eval_cases_parallel("C13", ["\n" + b for b in bodies], names=("M", "D"), timeout=3000)):
+        for k, (s, r, d) in enumerate(zip(seqs, o["M"], o["D"])):
             res.count_case({"c": c, "s": s}, nontrivial=True)
+            # the discipline read off the circuit's own acknowledgements (handshake-following stimulus only)
+            if d and k % 2 == 0:
+                concrete.append(("%s module (%s): at cycle %d %s" % (c["mt"], c.get("so") or "WriteHDL", d[0], DISC.get(d[1], d[1])),
+                                 {"cfg": c, "inputs": s[:d[0] + 1]}))
             if r:
                 viol.append(("circuit and model diverge at cycle %d in configuration %s" % (r[0], c), {"cfg": c, "inputs": s[:r[0] + 1]}))
     cov["lockstep_runs"] = sum(len(s) for _, s in meta)
@@ -127,8 +176,10 @@ def run(res, a):
                    "half with handshake-abiding agents and half with arbitrary stimulus; distinct by hash")
     cov["traces_validated_against_impl"] = cov["lockstep_runs"] - len([v for v in viol if "diverge" in v[0]])
     cov["samples"] = [{"cfg": meta[0][0], "inputs": meta[0][1][0][:4]}] if meta else []
-    for text, rp in viol[:3]:
+    for text, rp in concrete[:3]:
+        res.violation("C13 " + text, rp)
+    for text, rp in ([] if concrete else viol[:3]):
         res.violation("C13 " + text + " (the theorems are about the model; the circuit no longer refines it)", rp, nofail=True)
-    if failed and not viol:
+    if failed and not viol and not concrete:
         res.violation("C13 proof obligation no longer checks: %s" % failed, {"obligation": failed}, nofail=True)
     return res.finish("proof")
